@@ -254,6 +254,10 @@ class JSONSerialization(Serialization):
         try:
             allowed_types = [{'type': cls.json_schema_literal_types[type(obj)]}
                              for obj in p.objects]
+            if not allowed_types:
+                # no objects declared (such a Selector takes whatever it is
+                # given): nothing to say - an empty anyOf is not a schema
+                return {}
             schema = {'anyOf': allowed_types}
             schema['enum'] = p.objects
             return schema
@@ -269,6 +273,10 @@ class JSONSerialization(Serialization):
         try:
             allowed_types = [{'type': cls.json_schema_literal_types[type(obj)]}
                              for obj in p.objects]
+            if not allowed_types:
+                # no objects declared (such a Selector takes whatever it is
+                # given): nothing to say - an empty anyOf is not a schema
+                return {}
             schema = {'anyOf': allowed_types}
             schema['enum'] = p.objects
             return schema
